@@ -111,7 +111,7 @@ func VerifH_C15_handler() {
 	}
 	// a backend other than neutrino's own reports failures in its native
 	// vocabulary; the configured mapping turns them into BroadcastErrors
-	custom := vpParam("custombackend", 1) == 1 && vpRange("customBackend", 0, 1) == 1
+	custom := vpParam("custombackend", 0) == 2 || (vpParam("custombackend", 0) == 1 && vpRange("customBackend", 0, 1) == 1)
 	if custom {
 		vpReach("custom-backend")
 		plain := cfg.Broadcast
